@@ -436,7 +436,7 @@ func runCheck(prop, tier string) int {
 		"level":       "model_checking",
 		"coverage":    cov,
 		"assumptions": append([]string{
-			"SUT closed as in DESIGN 3.1: real auth/bank/params/service keepers over an in-memory KV base layer with baseapp's cache-wrapping discipline; prices in the base denomination only (MockTokenKeeper)",
+			"SUT closed as in DESIGN 3.1: real auth/bank/params/service keepers over an in-memory KV base layer with baseapp's cache-wrapping discipline; token keeper = the repository's MockTokenKeeper, except in the fx-* runs (main unit, one foreign token, exchange-rate service whose rate depends on the height)",
 			"bounds are those listed per run; nothing is claimed beyond them",
 		}, spec.Notes...),
 		"wall_s":      time.Since(start).Seconds(),
